@@ -49,7 +49,8 @@ def gen(tier, rng):
                 out.append(linegen.line_case(rng, mreq, fulls, mode=mode, policy={}, stream="mutation",
                                              field="/".join(map(str, path)), value=repr(val)[:40]))
             # the same refusals while a link repair is pending: a refused request must not trigger it either
-            pend = muts if tier == "thorough" else rng.sample(muts, min(25, len(muts)))
+            # (all of them for sign, whose second-stage validation runs after the generic one; a sample otherwise)
+            pend = muts if (tier == "thorough" or req.get("command") == "sign") else rng.sample(muts, min(25, len(muts)))
             for path, val, mreq in pend:
                 out.append(linegen.line_case(rng, mreq, fulls, mode=mode, policy={}, stream="mutation-pending",
                                              field="/".join(map(str, path)), value=repr(val)[:40],
